@@ -235,6 +235,19 @@ func c15Run(in *c15Input) Res {
 				okErr(rs.Rename(s(1), s(2)))
 			case "copy":
 				okErr(rs.Copy(s(1), s(2)))
+			case "rejrename", "rejcopy", "rejset":
+				// file store only (c15FsDomain a7): the destination cannot be a file
+				if !fs {
+					return Err("rej-op: file store only")
+				}
+				switch s(0) {
+				case "rejrename":
+					okErr(rs.Rename(s(1), s(2)))
+				case "rejcopy":
+					okErr(rs.Copy(s(1), s(2)))
+				default:
+					okErr(rs.Set(s(1), unhx(s(2))))
+				}
 			case "log":
 				lr, err := rs.LogReader(s(1))
 				if err != nil {
@@ -426,8 +439,14 @@ func c15Nontrivial(in *c15Input) bool {
 func runC15(ctx *Ctx) {
 	// every fifth case: a history on the file-based store (pkg/ref/fs), see genC15Fs
 	if ctx.Idx%5 == 2 {
-		in := genC15Fs(ctx.R, ctx.Thorough())
+		in := genC15Fs(ctx.R, ctx.Thorough(), false)
 		ctx.Emit("ops", in, c15Run(in), true, "store=fs")
+		return
+	}
+	// one case in 20: a file-store history with operations the directory layout must refuse
+	if ctx.Idx%20 == 11 {
+		in := genC15Fs(ctx.R, ctx.Thorough(), true)
+		ctx.Emit("ops", in, c15Run(in), true, "store=fs", "fs-rejected")
 		return
 	}
 	// every fourth case: log entries with generated author/action/time/transaction id ("txlog")
@@ -492,6 +511,15 @@ func setOnlyRemote(dir, name string) {
 //      directory walk): the runner sorts it.
 //  a6. bulk rename of a remote onto a remote whose path is nested in it (or the reverse): the
 //      outcome depends on the unspecified FilterKey order.
+//  a7. the one exception to a1 — operations the layout must REFUSE: `rejrename o n`, `rejcopy o n`,
+//      `rejset n v` are Rename / Copy / Set whose destination n cannot be a file in the present
+//      state: n is a directory that exists (a directory of a name that was a write's destination:
+//      directories are never removed), or a directory of n is a bound name. Such an operation has
+//      to fail and, like any failed operation on the map, change nothing: for the model it is not
+//      an operation at all (as `setlogfail` on the SQL store); n is not a name of the sequence
+//      (it is not "mentioned": it is never read or written otherwise). The runner refuses a
+//      rej-operation whose destination is not blocked. The logged set is left out: see the final
+//      note of (b).
 // (b) behaviour of implemented operations that contradicts the map — kept out of the generated
 //     sequences only because it would alarm on the unchanged tree (v1, v2: any two values):
 //  b1. Copy of a bound name that has no log returns an error after having written the destination:
@@ -509,6 +537,8 @@ func setOnlyRemote(dir, name string) {
 //  b5. further prefixes and all excluded prefixes are silently ignored (FilterKey(["heads/","tags/"])
 //      lists heads only, FilterKey([],["heads/"]) lists heads too); a prefix that is not a
 //      directory path matches nothing (FilterKey(["heads/a"]) = [] with heads/a and heads/ab bound).
+//  (not generated, a7) a logged set onto a blocked name writes the log entry before the ref write
+//      is refused: set heads/b/c v1; logged set heads/b v2 "m" -> error, yet logs/heads/b holds "m".
 // ---------------------------------------------------------------------------------------------
 
 type c15FsState struct {
@@ -516,10 +546,43 @@ type c15FsState struct {
 	log       map[string]bool // names with a non-empty log
 	mentioned map[string]bool // every name the sequence has named so far (a1)
 	order     []string        // the same, in order of first mention
+	dirs      map[string]bool // directories that exist below refs/ (a7): made for a write's destination, never removed
 }
 
 func newC15FsState() *c15FsState {
-	return &c15FsState{val: map[string]bool{}, log: map[string]bool{}, mentioned: map[string]bool{}}
+	return &c15FsState{val: map[string]bool{}, log: map[string]bool{}, mentioned: map[string]bool{}, dirs: map[string]bool{}}
+}
+
+// c15Ancestors: the proper directory prefixes of a path ("a/b/c" -> "a", "a/b")
+func c15Ancestors(n string) []string {
+	l := []string{}
+	for i := 0; i < len(n); i++ {
+		if n[i] == '/' {
+			l = append(l, n[:i])
+		}
+	}
+	return l
+}
+
+// wrote records the directories a write to name n creates (createParentDir)
+func (t *c15FsState) wrote(n string) {
+	for _, d := range c15Ancestors(n) {
+		t.dirs[d] = true
+	}
+}
+
+// blocked: n cannot be a file of the store in this state (a7): it is an existing directory, or one
+// of its directories is a bound name, i.e. a file
+func (t *c15FsState) blocked(n string) bool {
+	if t.dirs[n] {
+		return true
+	}
+	for _, d := range c15Ancestors(n) {
+		if t.val[d] {
+			return true
+		}
+	}
+	return false
 }
 
 func c15CleanPath(p string) bool {
@@ -639,6 +702,7 @@ func (t *c15FsState) step(op []interface{}) string {
 			return r
 		}
 		t.val[s(1)] = true
+		t.wrote(s(1))
 	case "setlog":
 		if r := t.mention(s(1)); r != "" {
 			return r
@@ -647,6 +711,7 @@ func (t *c15FsState) step(op []interface{}) string {
 			return r
 		}
 		t.val[s(1)], t.log[s(1)] = true, true
+		t.wrote(s(1))
 	case "setlogx":
 		if len(op) != 9 {
 			return "setlogx: 9 fields"
@@ -658,6 +723,7 @@ func (t *c15FsState) step(op []interface{}) string {
 			return r
 		}
 		t.val[s(1)], t.log[s(1)] = true, true
+		t.wrote(s(1))
 	case "get", "log":
 		return t.mention(s(1))
 	case "del":
@@ -693,7 +759,28 @@ func (t *c15FsState) step(op []interface{}) string {
 		if t.val[o] && !t.log[o] && t.log[n] && o != n {
 			return "b2: source without log onto a destination with a log"
 		}
+		if s(0) == "rename" || t.val[o] {
+			t.wrote(n) // Rename makes the destination's directories first; Copy once the source is open
+		}
 		move(o, n, s(0) == "copy")
+	case "rejrename", "rejcopy":
+		o, n := s(1), s(2)
+		if r := t.mention(o); r != "" {
+			return r
+		}
+		if !c15CleanPath(n) {
+			return "a1: name is not a clean relative path: " + n
+		}
+		if !t.blocked(n) {
+			return "a7: the destination is not blocked: " + n
+		}
+	case "rejset":
+		if !c15CleanPath(s(1)) {
+			return "a1: name is not a clean relative path: " + s(1)
+		}
+		if !t.blocked(s(1)) {
+			return "a7: the destination is not blocked: " + s(1)
+		}
 	case "delallremote":
 		if !c15CleanPath(s(1)) {
 			return "a1: remote is not a clean relative path"
@@ -723,6 +810,7 @@ func (t *c15FsState) step(op []interface{}) string {
 			return r
 		}
 		for i, k := range keys {
+			t.wrote(dst[i])
 			move(k, dst[i], false)
 		}
 	default:
@@ -749,7 +837,12 @@ var c15FsWords = []string{"fix", "merge 1a2b3c4, 5d6e7f8", "[from origin] storin
 // backward scanner that the log reader sits on — and are carried around by rename/copy, into
 // directories that have held no log before as well; logs are read in between and, at the end,
 // for every name the history has touched.
-func genC15Fs(r *rand.Rand, thorough bool) *c15Input {
+//
+// rej (tag fs-rejected): the history also holds operations the directory layout has to refuse
+// (c15FsDomain a7) — rename / copy / plain set onto a name that is an existing directory or lies
+// below a bound name — followed by reads of the source and, now and then, by the same rename onto a
+// free name; plain sets (refs without a log) are more frequent.
+func genC15Fs(r *rand.Rand, thorough bool, rej bool) *c15Input {
 	in := &c15Input{Store: "fs"}
 	st := newC15FsState()
 	n := 60 + r.Intn(70)
@@ -809,8 +902,67 @@ func genC15Fs(r *rand.Rand, thorough bool) *c15Input {
 		}
 		in.Ops = append(in.Ops, op)
 	}
+	// the destinations a7 allows in the present state
+	blockedNames := func() []string {
+		l := []string{}
+		if r.Intn(2) == 0 {
+			// existing directories
+			for d := range st.dirs {
+				if c15CleanPath(d) && st.blocked(d) {
+					l = append(l, d)
+				}
+			}
+		}
+		if len(l) == 0 {
+			// names below a bound name
+			for b := range st.val {
+				for _, leaf := range []string{"x", "main", "a/b"} {
+					l = append(l, b+"/"+leaf)
+				}
+			}
+		}
+		sort.Strings(l)
+		return l
+	}
 	for i := 0; i < n; i++ {
 		var op []interface{}
+		if rej && r.Intn(5) == 0 {
+			if r.Intn(3) == 0 {
+				add([]interface{}{"set", nm(), c15Sum(r)})
+				continue
+			}
+			if cands := blockedNames(); len(cands) > 0 {
+				dst := cands[r.Intn(len(cands))]
+				src := bound()
+				if r.Intn(3) != 0 {
+					for _, h := range hot {
+						if st.val[h] && r.Intn(2) == 0 {
+							src = h
+						}
+					}
+				}
+				switch x := r.Intn(10); {
+				case x < 6:
+					add([]interface{}{"rejrename", src, dst})
+				case x < 8:
+					add([]interface{}{"rejcopy", src, dst})
+				default:
+					add([]interface{}{"rejset", dst, c15Sum(r)})
+				}
+				if r.Intn(2) == 0 {
+					add([]interface{}{"log", src})
+				}
+				if r.Intn(3) == 0 {
+					add([]interface{}{"get", src})
+				}
+				if r.Intn(3) == 0 {
+					to := nm()
+					add([]interface{}{"rename", src, to})
+					add([]interface{}{"log", to})
+				}
+				continue
+			}
+		}
 		switch x := r.Intn(40); {
 		case x < 19:
 			k := hot[r.Intn(len(hot))]
